@@ -501,10 +501,17 @@ double Integrate_MC_Vegas(std::function<double(std::vector<double>&, const doubl
 		for(j = 0; j < ndim; j++)
 		{
 			rc = 0.0;
+			// Sum the bin weights after clamping them from below: an integrand that vanishes at every sample would otherwise give
+			// dt = 0, NaN refinement weights and an out-of-range read in Rebin().
+			dt[j] = 0.0;
 			for(i = 0; i < nd; i++)
 			{
 				if(d[i][j] < TINY)
 					d[i][j] = TINY;
+				dt[j] += d[i][j];
+			}
+			for(i = 0; i < nd; i++)
+			{
 				r[i] = pow((1.0 - d[i][j] / dt[j]) /
 							   (log(dt[j]) - log(d[i][j])),
 						   ALPH);
